@@ -106,6 +106,8 @@ def _apply(gb, o, gcp=False, via=0):
         nmax = max(h, w)
         n = 2 * nmax if p == "double" else -(-nmax // 2)
         return GB.zoom_to(gb, n) if fn else gb.zoom_to(n)
+    if op == "zoom_to_res":
+        return GB.zoom_to(gb, resolution=float(p)) if fn else gb.zoom_to(resolution=float(p) if via < 2 else p)
     if op == "scaled_down":
         return GB.scaled_down_geobox(gb, p)
     if op == "buffered":
